@@ -440,8 +440,15 @@ package leader
 //@   on call onPromote as c assert C19.derived_from_election_ctx: origin(c.arg0, "ctx:derived") && origin(ctxof(c.arg0), "field:kvElection.ctx")
 //@   on call cancel assert C19.not_cancelled_early: calls(onPromote) == 1
 //@   on call onPromote assert C08.promote_once_per_activation: calls(onPromote) == 1
-//@   ensures C08.promote_once: spawns(becomeLeader$3) == (promoteSet ? 1 : 0)
-//@   ensures C02.claims: calls(updateIsLeaderMetric) == 1
+//@   ghost claimed Bool = false
+//@   ghost stateL Int = 0
+//@   ghost ctxNilL Bool = false
+//@   on lock kvElection.mu set stateL = e.state
+//@   on lock kvElection.mu set ctxNilL = e.ctx == nil
+//@   on store kvElection.isLeader as s when s.value set claimed = true
+//@   ensures C08.promote_once: spawns(becomeLeader$3) == ((claimed && promoteSet) ? 1 : 0)
+//@   ensures C09.no_promote_after_stop: stateL == "STOPPED" || ctxNilL ==> !claimed && spawns(becomeLeader$1) == 0 && spawns(becomeLeader$2) == 0 && spawns(becomeLeader$3) == 0
+//@   ensures C02.claims_when_running: stateL != "STOPPED" && !ctxNilL ==> claimed && spawns(becomeLeader$1) == 1 && spawns(becomeLeader$2) == 1
 
 //@ func (e *kvElection) becomeFollower()
 //@   tags C03 C07 C08 C18 C19 C06
@@ -456,7 +463,10 @@ package leader
 //@   on call cancel set termCancelled = true
 //@   on unlock kvElection.mu assert C03.claim_cleared_at_unlock: !e.isLeader
 //@   ensures C19.cancelled_on_demotion: cleared ==> termCancelled
-//@   ensures C06.failed_round_rearms: ctxSeen && !watcherSeen ==> spawns(becomeFollower$1) == 1
+//@   ghost stateL Int = 0
+//@   on lock kvElection.mu set stateL = e.state
+//@   ensures C06.failed_round_rearms: stateL != "STOPPED" && ctxSeen && !watcherSeen ==> spawns(becomeFollower$1) == 1
+//@   ensures C09.stopped_stays_stopped: stateL == "STOPPED" ==> spawns(becomeFollower$1) == 0 && calls(recordTransition) == 0
 
 //@ func (e *kvElection) Stop()
 //@   tags C09 C08 C18 C01 C20
@@ -464,8 +474,10 @@ package leader
 //@   ghost wasLeaderL Bool = false
 //@   ghost ctxNilL Bool = false
 //@   ghost demoteNilSeen Bool = false
-//@   on lock kvElection.mu set wasLeaderL = e.isLeader
-//@   on lock kvElection.mu set ctxNilL = e.ctx == nil
+//@   ghost firstLock Bool = true
+//@   on lock kvElection.mu when firstLock set wasLeaderL = e.isLeader
+//@   on lock kvElection.mu when firstLock set ctxNilL = e.ctx == nil
+//@   on lock kvElection.mu set firstLock = false
 //@   on call cancel set e.stopped = true
 //@   on load kvElection.onDemote as l when l.value == nil set demoteNilSeen = true
 //@   on call wg.Wait assert C09.stop_waits_time_boxed: inspawn()
